@@ -348,8 +348,17 @@ def parse_mir(text):
                         i += 1
                         while lines[i].strip() != '}':
                             body.append(lines[i].strip()); i += 1
-                        stmts = [parse_statement(x) for x in body[:-1]]
-                        f.blocks[cur] = (stmts, parse_terminator(body[-1]), body)
+                        stmts = []
+                        for x in body[:-1]:
+                            try:
+                                stmts.append(parse_statement(x))
+                            except Exception as e:   # a form the parser does not know: fails only if a path executes it
+                                stmts.append(('unsupported', x.strip()[:160]))
+                        try:
+                            term = parse_terminator(body[-1])
+                        except Exception as e:
+                            term = ('unsupported', body[-1].strip()[:160])
+                        f.blocks[cur] = (stmts, term, body)
                 i += 1
             funcs[f.name] = f
         i += 1
